@@ -83,7 +83,9 @@ RULE = (
     "begin_transaction() (get_current_heads / connection SELECT / context.execute) and run_migrations() without the outer "
     "begin_transaction() (only where that level is a nullcontext): round robin over the configs of every random in-process script, and "
     "on the command path (patched generic env.py) every variant x 4 settings (all 8 in thorough) x every failure position for a script "
-    "with and one without autocommit blocks; (8) an offline (--sql) stream: the same bodies run in as_sql mode (sqlite dialect, transactional_ddl {default,True} x "
+    "with and one without autocommit blocks; (9) env.py calling run_migrations() twice inside ONE begin_transaction() block, through the real EnvironmentContext "
+    "and ScriptDirectory.run_env() with a per-call target (phases), failing migration in the first or the second call, judged as the "
+    "stock shape over the concatenated plan; (8) an offline (--sql) stream: the same bodies run in as_sql mode (sqlite dialect, transactional_ddl {default,True} x "
     "transaction_per_migration; MigrationContext in-process and command.upgrade(sql=True) with the shipped env.py), failing at every "
     "body position (outside and inside autocommit blocks) and in the on_version_apply hook; the command must fail and the script "
     "emitted so far, applied statement by statement to a database in the start state, is judged by the same spec; "
@@ -104,7 +106,12 @@ ASSUMPTIONS = [
 # begin_transaction(); "no_outer" calls run_migrations() without the outer begin_transaction() (only sensible - and only
 # generated - where that level is a nullcontext anyway: transactional_ddl false or transaction_per_migration, no external txn)
 SHAPES = ["stock", "heads", "select", "ctxexec", "no_outer"]
-MODEL_SHAPE = {"stock": "stock", "heads": "preStmt", "select": "preStmt", "ctxexec": "preStmt", "no_outer": "noOuter"}
+# "two_calls": env.py calls run_migrations() twice inside one begin_transaction() block (the work function migrates to
+# config["phases"][k] in the k-th call).  For the model that is the stock shape over the concatenated plan: the second call
+# re-reads the heads (a read, autobegin is idempotent) and continues the loop; with transactional DDL and no per-migration
+# transactions the block is ONE enclosing transaction (C04.single_txn).  The claim is validated against the real
+# EnvironmentContext on every run.
+MODEL_SHAPE = {"two_calls": "stock", "stock": "stock", "heads": "preStmt", "select": "preStmt", "ctxexec": "preStmt", "no_outer": "noOuter"}
 
 
 def shape_ok(config, shape, default_tddl=False):
@@ -274,7 +281,8 @@ def script_cases(ctx, script, configs, runner="inprocess", cfg_obj=None, scratch
                 if config.get("tddl") is not None:
                     kw["transactional_ddl"] = config["tddl"]
             res, orc = oi.run_command(cobj, script["bodies"], rev_index, script["cmd"], script["target"], config["engine"], fail,
-                                      configure_kw=kw, hook=patched, shape=config.get("shape", "stock") if patched else "stock")
+                                      configure_kw=kw, hook=patched, shape=config.get("shape", "stock") if patched else "stock",
+                                      phases=config.get("phases") if patched else None)
         return res, orc, oi.observe(work, rev_index)
 
     for cfg_no, config in enumerate(configs):
@@ -988,8 +996,14 @@ def run(ctx, n_scripts=None, rng_name="main"):
         for c in (env_cfgs if ctx.thorough else [env_cfgs[0], env_cfgs[1], env_cfgs[6], env_cfgs[7]]):
             if shape_ok(c, sh):
                 shape_cfgs.append(dict(c, shape=sh))
-    jobs.append((dict(fixed[0], all_kinds=False), shape_cfgs if ctx.thorough else shape_cfgs[::2], "command"))
+    jobs.append((dict(fixed[0], all_kinds=False), shape_cfgs if ctx.thorough else shape_cfgs[::3], "command"))
     jobs.append((dict(fixed[2], all_kinds=False), shape_cfgs, "command"))  # a script without autocommit blocks
+    # several run_migrations() calls inside one begin_transaction() block, through the real EnvironmentContext; the failing
+    # migration may be in the first or in a later call
+    two = env_cfgs if ctx.thorough else [env_cfgs[6], env_cfgs[2], env_cfgs[7], env_cfgs[0]]
+    for s, phases in ((fixed[2], ["m", "heads"]), (fixed[3], ["m", "base"]), (fixed[0], ["b", "heads"])):
+        jobs.append((dict(s, all_kinds=False), [dict(c, shape="two_calls", phases=phases) for c in (two if s is not fixed[0] else two[:2])],
+                     "command"))
     # failures raised by alembic itself inside the version update (rowcount check), every configuration
     for s in SABOTAGE_SCRIPTS:
         jobs.append((s, all_configs(rng, True), "inprocess"))
@@ -1155,7 +1169,8 @@ def replay(ctx, case):
                 if config.get("tddl") is not None:
                     kw["transactional_ddl"] = config["tddl"]
             res, orc = oi.run_command(cfg_obj, script["bodies"], rev_index, script["cmd"], script["target"], config["engine"], fail,
-                                      configure_kw=kw, hook=patched, shape=config.get("shape", "stock") if patched else "stock")
+                                      configure_kw=kw, hook=patched, shape=config.get("shape", "stock") if patched else "stock",
+                                      phases=config.get("phases") if patched else None)
         else:
             res, orc = oi.run_inprocess(base, script["hist"], script["bodies"], rev_index, script["cmd"], script["target"], config, fail)
         fin = oi.observe(base, rev_index)
